@@ -1137,9 +1137,15 @@ def run_realinv(aa, inp):
         if s is None: continue
         if s["name"] in KERNELS:
             Bn = np.array([[float(x) for x in r] for r in B])
-            if np.abs(Bn - Bn.T).max() > 1e-9 * max(1.0, np.abs(Bn).max()): ok = False; notes["sym"] = d["kind"]
-            try: np.linalg.cholesky(Bn)
-            except Exception: ok = False; notes["pd"] = d["kind"]
+            # B = coefficient * numpy.linalg.inv(cov): the computed inverse of a matrix of condition number c is symmetric /
+            # definite only up to a relative error ~ c * machine epsilon (c reaches 1e8-1e9 when the kernel scale is large
+            # against the pixel spacing: cov is then singular up to its 1e-8 ridge). A fixed 1e-9 would be a false alarm there
+            # (met once: ExponentialKernel scale 3/2 on a 3x4 mesh, asymmetry 4e-9 relative at cond 2e8).
+            cond = float(np.linalg.cond(Bn))
+            tol = max(1e-9, 200.0 * cond * 2.3e-16)
+            notes.setdefault("kernel_cond", []).append(cond)
+            if np.abs(Bn - Bn.T).max() > tol * max(1.0, np.abs(Bn).max()): ok = False; notes["sym"] = d["kind"]
+            if np.linalg.eigvalsh((Bn + Bn.T) / 2).min() <= -tol * max(1.0, np.abs(Bn).max()): ok = False; notes["pd"] = d["kind"]
             continue
         wf = wf_of(s, o)
         if not wf: ok = False; notes["wf"] = d["kind"]     # a real object (mesh or function list) must hand over a well-formed table
